@@ -26,9 +26,9 @@ def run(chk):
         if not rule_select_eval(chk, comp):
             rule_select(chk, comp, bp)
     if bp:
-        rule_isolate(chk, bp)
         import c18
-        c18.rule_build_eval(chk, prefix="C17.build")       # each pipeline is selected, bound and exported on its own copy, in that order
+        built = c18.rule_build_eval(chk, prefix="C17.build")       # each pipeline is selected, bound and exported on its own copy, in that order
+        rule_isolate(chk, bp, shape=not built)
     rule_dup(chk)
 
 def rule_select_eval(chk, comp):
@@ -170,8 +170,17 @@ def rule_select(chk, comp, bp):
     chk.ob("C17.select/returns-all-built", okv, "Ok(<the vector the loop pushed into>)" if okv else "compile no longer returns the vector of pipelines it built", where(comp))
 
 
-def rule_isolate(chk, bp):
+def rule_isolate(chk, bp, shape=True):
+    """The shape rules about build_pipeline (which variable each step is applied to, where the reported state and stages
+    come from) are the fallback of C17.build/* (build_pipeline read as a table: the exporter is handed the module that went
+    through select and bind, state and stages are the selected pipeline's)."""
     params = bp["params"]
+    if not shape:
+        for k in ("isolate/shared-module-only-cloned", "isolate/select_pipeline-on-clone", "isolate/assign_api_bindings-on-clone", "isolate/export_to_hlsl-on-clone", "isolate/export_to_msl-on-clone",
+                  "meta/graphics-state", "meta/stages"):
+            chk.ob("C17." + k, True, "decided by C17.build/* (build_pipeline read as a table)", where(bp), trivial=True)
+        rule_selected_only(chk)
+        return
     pid = None
     for p in params:
         if "ir_module::Module" in p["ty"] and p.get("pat", {}).get("k") == "Bind":
